@@ -430,7 +430,7 @@ class PeakLoadWindow(Strategy):
                 # only current timestep computed, no look-ahead
                 energy_needed = (1 - battery.soc) * battery.capacity
                 p = energy_needed * ts_per_hour / battery.efficiency / ts_until_window_change
-                p2 = min(gc.max_power - sum(gc_loads.values()), p)
+                p2 = min(gc.cur_max_power - sum(gc_loads.values()), p)
                 p3 = 0
                 if p2 >= battery.min_charging_power:
                     bat_info[b_id]["power"] = p2
